@@ -51,22 +51,20 @@ Record pst := mkP {
   futs : list fut;              (* pending_inbound: in-flight request futures *)
   rdrs : list rdr;              (* pending_inbound_requests *)
   rsps : list rsp;              (* pending_outbound_responses *)
-  next_rid : N;                 (* shared request id allocator *)
-  cancelled : list N            (* ghost: every id the user asked to cancel *)
+  next_rid : N                  (* shared request id allocator *)
 }.
 
-Definition init_pst : pst := mkP [] [] [] [] [] [] [] [] 0 [].
+Definition init_pst : pst := mkP [] [] [] [] [] [] [] [] 0.
 
-Definition set_peers s v := mkP v (active s) (inb s) (dials s) (pouts s) (futs s) (rdrs s) (rsps s) (next_rid s) (cancelled s).
-Definition set_active s v := mkP (peers s) v (inb s) (dials s) (pouts s) (futs s) (rdrs s) (rsps s) (next_rid s) (cancelled s).
-Definition set_inb s v := mkP (peers s) (active s) v (dials s) (pouts s) (futs s) (rdrs s) (rsps s) (next_rid s) (cancelled s).
-Definition set_dials s v := mkP (peers s) (active s) (inb s) v (pouts s) (futs s) (rdrs s) (rsps s) (next_rid s) (cancelled s).
-Definition set_pouts s v := mkP (peers s) (active s) (inb s) (dials s) v (futs s) (rdrs s) (rsps s) (next_rid s) (cancelled s).
-Definition set_futs s v := mkP (peers s) (active s) (inb s) (dials s) (pouts s) v (rdrs s) (rsps s) (next_rid s) (cancelled s).
-Definition set_rdrs s v := mkP (peers s) (active s) (inb s) (dials s) (pouts s) (futs s) v (rsps s) (next_rid s) (cancelled s).
-Definition set_rsps s v := mkP (peers s) (active s) (inb s) (dials s) (pouts s) (futs s) (rdrs s) v (next_rid s) (cancelled s).
-Definition set_next_rid s v := mkP (peers s) (active s) (inb s) (dials s) (pouts s) (futs s) (rdrs s) (rsps s) v (cancelled s).
-Definition set_cancelled s v := mkP (peers s) (active s) (inb s) (dials s) (pouts s) (futs s) (rdrs s) (rsps s) (next_rid s) v.
+Definition set_peers s v := mkP v (active s) (inb s) (dials s) (pouts s) (futs s) (rdrs s) (rsps s) (next_rid s).
+Definition set_active s v := mkP (peers s) v (inb s) (dials s) (pouts s) (futs s) (rdrs s) (rsps s) (next_rid s).
+Definition set_inb s v := mkP (peers s) (active s) v (dials s) (pouts s) (futs s) (rdrs s) (rsps s) (next_rid s).
+Definition set_dials s v := mkP (peers s) (active s) (inb s) v (pouts s) (futs s) (rdrs s) (rsps s) (next_rid s).
+Definition set_pouts s v := mkP (peers s) (active s) (inb s) (dials s) v (futs s) (rdrs s) (rsps s) (next_rid s).
+Definition set_futs s v := mkP (peers s) (active s) (inb s) (dials s) (pouts s) v (rdrs s) (rsps s) (next_rid s).
+Definition set_rdrs s v := mkP (peers s) (active s) (inb s) (dials s) (pouts s) (futs s) v (rsps s) (next_rid s).
+Definition set_rsps s v := mkP (peers s) (active s) (inb s) (dials s) (pouts s) (futs s) (rdrs s) v (next_rid s).
+Definition set_next_rid s v := mkP (peers s) (active s) (inb s) (dials s) (pouts s) (futs s) (rdrs s) (rsps s) v.
 
 (* what the user / the remote side can observe *)
 Inductive out :=
@@ -114,6 +112,22 @@ Definition h_send (s : pst) (p : N) (dial : bool) (len tag : N) (open_ok dial_ok
   else if dial_ok then (set_dials s (dials s ++ [(p, q)]), [OSent rid])
   else (s, [OSent rid; OFail rid E_DIAL_IMMEDIATE]).
 
+(* The handler as it was before the repair of F-C13a (pending_dials.insert(peer, ctx) overwrote the
+   entry of a peer that was already being dialed). Used only by the refutation witness in
+   Properties.v; the model proper uses h_send. *)
+Definition h_send_unrepaired (s : pst) (p : N) (dial : bool) (len tag : N) (open_ok dial_ok : bool) (sid : N)
+  : pst * list out :=
+  let rid := next_rid s in
+  let q := mkReq rid len tag in
+  let s := set_next_rid s (rid + 1) in
+  if memN p (peers s) then
+    if open_ok then
+      (set_pouts (set_active s (active s ++ [(p, rid)])) (pouts s ++ [mkPo sid p q]), [OSent rid])
+    else (s, [OSent rid; OFail rid E_SUBSTREAM])
+  else if negb dial then (s, [OSent rid; OFail rid E_NOT_CONNECTED])
+  else if dial_ok then (set_dials s (filter (fun d => negb (fst d =? p)) (dials s) ++ [(p, q)]), [OSent rid])
+  else (s, [OSent rid; OFail rid E_DIAL_IMMEDIATE]).
+
 Fixpoint number_pouts (p : N) (sid : N) (l : list (N * req)) : list pout :=
   match l with
   | [] => []
@@ -152,7 +166,9 @@ Definition h_dialfail (s : pst) (p : N) : pst * list out :=
    map (fun d => OFail (q_rid (snd d)) E_DIAL_FAILED) (filter (fun d => fst d =? p) (dials s))).
 
 Definition find_po (sid : N) (l : list pout) : option pout := find (fun po => po_sid po =? sid) l.
-Definition drop_po (sid : N) (l : list pout) : list pout := filter (fun po => negb (po_sid po =? sid)) l.
+(* HashMap::remove of the entry that was found: request ids are unique among the entries *)
+Definition drop_po (po : pout) (l : list pout) : list pout :=
+  filter (fun x => negb (q_rid (po_req x) =? q_rid (po_req po))) l.
 
 (* on_substream_open_failure *)
 Definition h_openfail (s : pst) (sid : N) (unsupported : bool) : pst * list out :=
@@ -160,7 +176,7 @@ Definition h_openfail (s : pst) (sid : N) (unsupported : bool) : pst * list out 
   | None => (s, [])
   | Some po =>
     let rid := q_rid (po_req po) in
-    (set_active (set_pouts s (drop_po sid (pouts s))) (removeP (po_peer po, rid) (active s)),
+    (set_active (set_pouts s (drop_po po (pouts s))) (removeP (po_peer po, rid) (active s)),
      [OFail rid (if unsupported then E_UNSUPPORTED else E_SUBSTREAM)])
   end.
 
@@ -177,11 +193,13 @@ Definition settle (s : pst) (p rid : N) (r : fres) : pst * list out :=
     (set_active s (removeP (p, rid) (active s)), verdict rid r)
   else (s, []).
 
-Definition drop_fut (c : N) (l : list fut) : list fut := filter (fun f => negb (f_chan f =? c)) l.
+(* the finished future leaves FuturesUnordered: request ids are unique among the futures *)
+Definition drop_fut (f : fut) (l : list fut) : list fut :=
+  filter (fun g => negb (q_rid (f_req g) =? q_rid (f_req f))) l.
 
 (* a request future finishes: it leaves pending_inbound, then on_substream_event *)
 Definition complete (s : pst) (f : fut) (r : fres) : pst * list out :=
-  settle (set_futs s (drop_fut (f_chan f) (futs s))) (f_peer f) (q_rid (f_req f)) r.
+  settle (set_futs s (drop_fut f (futs s))) (f_peer f) (q_rid (f_req f)) r.
 
 (* on_outbound_substream on carrier c, followed by the first poll of the new future.
    gate: 0 = the carrier does not accept bytes yet, 1 = it does, 2 = writing fails. *)
@@ -189,7 +207,7 @@ Definition h_opened (cf : cfg) (s : pst) (sid c gate now : N) : pst * list out :
   match find_po sid (pouts s) with
   | None => (s, [])
   | Some po =>
-    let s := set_pouts s (drop_po sid (pouts s)) in
+    let s := set_pouts s (drop_po po (pouts s)) in
     let q := po_req po in
     let p := po_peer po in
     if max_size cf <? q_len q then settle s p (q_rid q) (RErr E_TOO_LARGE)
@@ -205,9 +223,9 @@ Definition find_fut (c : N) (l : list fut) : option fut := find (fun f => f_chan
 (* the future on carrier c finished sending and now waits until dl *)
 Definition to_wait (c dl : N) (l : list fut) : list fut :=
   map (fun f => if f_chan f =? c then mkFut (f_peer f) (f_req f) (f_chan f) true dl false else f) l.
-(* the cancel signal for the future on carrier c is latched *)
-Definition mark_cancel (c : N) (l : list fut) : list fut :=
-  map (fun f => if f_chan f =? c then mkFut (f_peer f) (f_req f) (f_chan f) (f_wait f) (f_dl f) true else f) l.
+(* the cancel signal for the future of request rid is latched *)
+Definition mark_cancel (rid : N) (l : list fut) : list fut :=
+  map (fun f => if q_rid (f_req f) =? rid then mkFut (f_peer f) (f_req f) (f_chan f) (f_wait f) (f_dl f) true else f) l.
 
 (* the carrier starts accepting bytes *)
 Definition fut_unblock (cf : cfg) (s : pst) (c now : N) : pst * list out :=
@@ -247,11 +265,10 @@ Definition fut_advance (s : pst) (now : N) : pst * list out :=
 
 (* on_cancel_request *)
 Definition h_cancel (s : pst) (rid : N) : pst * list out :=
-  let s := set_cancelled s (rid :: cancelled s) in
   match find (fun f => (q_rid (f_req f) =? rid) && negb (f_cancel f)) (futs s) with
   | Some f =>
     if f_wait f then complete s f (RErr E_CANCELED)
-    else (set_futs s (mark_cancel (f_chan f) (futs s)), [])
+    else (set_futs s (mark_cancel rid (futs s)), [])
   | None => (s, [])
   end.
 
